@@ -578,6 +578,7 @@ impl<'a> Cx<'a> {
     fn simple_pat(&mut self, p: &Pat) -> R<(String, Option<LT>)> {
         match p {
             Pat::Ident(i) if i.subpat.is_none() => Ok((i.ident.to_string(), None)),
+            Pat::Reference(r) => self.simple_pat(&r.pat),
             Pat::Type(t) => {
                 let (n, _) = self.simple_pat(&t.pat)?;
                 let ty = self.syn_ty(&t.ty);
